@@ -120,6 +120,7 @@ def run(ctx):
         ext = {
             "fixed_poi_fit": fpf, ".make_pdf": make_pdf, ".sample": sample, "tqdm": tqdm_, "EmpiricalDistribution": empirical,
             "get_test_stat": lambda args, kw: PyFunc(tsf, "teststat_func"), "dict": lambda args, kw: {},
+            "HypoTestFitResults": lambda args, kw: Obj("fitresults", dict(kw), closed=True),  # the named tuple of fits the calculators expose
         }
         # the calculator's state is whatever its constructor sets up (interpreted), then optionally a teststatistic
         # call at ANOTHER mu: distributions(mu_test) must not pick up anything remembered from it
